@@ -182,7 +182,8 @@ func Harness_C14_Artifact() {
 // acknowledgement, after the operator's or after the source runner's - folds into it: no second
 // checkpoint is started, a second savepoint request is refused, the acknowledgements already
 // received count, the checkpoint completes with the remaining ones, the savepoint artifact is
-// written and restores, and the next periodic checkpoint can start.
+// written and restores, and the next periodic checkpoint can start. The job restored from the
+// savepoint then takes a savepoint of its own (larger id), which completes and restores too.
 func Harness_C14_Fold() {
 	verif.FixedRand(3, 1, 4, 1, 5, 9, 2, 6)
 	verif.Abstract("bloom.Filter")
@@ -248,9 +249,46 @@ func Harness_C14_Fold() {
 		verif.Assert(restored.LoadCheckpoint() == nil, "load-from-savepoint-succeeds")
 		rc := restored.CurrentCheckpoint()
 		verif.Assert(rc != nil && rc.Id == id && len(rc.OperatorCheckpoints) == 1, "savepoint-restores-the-folded-checkpoint")
-		db2 := dkv.Open(dkv.DBOptions{FileSystem: verifImport(loc).WithWorkingDir("w/o1"), MemTableSize: 20, TargetFileSize: 64, L0TableNumCompactionTrigger: 2}, []recovery.CheckpointHandle{h})
+		mem2 := verifImport(loc)
+		db2 := dkv.Open(dkv.DBOptions{FileSystem: mem2.WithWorkingDir("w/o1"), MemTableSize: 20, TargetFileSize: 64, L0TableNumCompactionTrigger: 2}, []recovery.CheckpointHandle{h})
 		e, err := db2.Get(verifSPKeys[0])
 		verif.Assert(err == nil && bytes.Equal(e.Value(), val), "operator-state-restored")
+
+		// the job started from the savepoint keeps running: its own first savepoint gets a larger id,
+		// completes, and restores in turn (savepoint -> restore -> savepoint -> restore)
+		restored.RegisterSourceSplitter(&verifSplitter{state: []byte("splitter2")})
+		val2 := verif.Bytes("v2", 1)
+		db2.Put(verifSPKeys[1], val2)
+		sid2, created2, err := restored.CreateSavepoint([]string{"o1"}, []string{"r1"})
+		verif.Assert(err == nil && created2, "savepoint-of-the-restored-job-starts-a-checkpoint")
+		verif.Assert(sid2 > id, "checkpoint-ids-grow-across-a-restart-from-a-savepoint")
+		h2, err := db2.Checkpoint(sid2)()
+		verif.Assert(err == nil, "dkv-checkpoint-succeeds")
+		verifExport(mem2, loc)
+		verif.Assert(restored.AddOperatorSnapshot(&snapshotpb.OperatorCheckpoint{CheckpointId: sid2, OperatorId: "o1", DkvFileUri: h2.URI}) == nil, "operator-ack-accepted")
+		verif.Assert(restored.AddSourceSnapshot(&jobpb.SourceRunnerCheckpointCompleteRequest{CheckpointId: sid2, SourceRunnerId: "r1", SplitStates: [][]byte{{9}}}) == nil, "runner-ack-accepted")
+		verif.Quiesce()
+		rc2 := restored.CurrentCheckpoint()
+		verif.Assert(rc2 != nil && rc2.Id == sid2, "savepoint-of-the-restored-job-completes")
+		spURI2 := "savepoints/" + pathSegment(sid2) + "/job.savepoint"
+		verif.Assert(sid2 != id && loc.find(spURI2) >= 0, "second-savepoint-artifact-written")
+		if sid2 != id && loc.find(spURI2) >= 0 {
+			var doomed2 []string
+			for _, p := range loc.paths {
+				if !strings.HasPrefix(p, "savepoints/") {
+					doomed2 = append(doomed2, p)
+				}
+			}
+			loc.Remove(doomed2...)
+			third := NewStore(&NewStoreParams{SavepointURI: spURI2, FileStore: loc, CheckpointsPath: "checkpoints", SavepointsPath: "savepoints"})
+			verif.Assert(third.LoadCheckpoint() == nil, "load-from-second-savepoint-succeeds")
+			tc := third.CurrentCheckpoint()
+			verif.Assert(tc != nil && tc.Id == sid2, "second-savepoint-restores-its-checkpoint")
+			db3 := dkv.Open(dkv.DBOptions{FileSystem: verifImport(loc).WithWorkingDir("w/o1"), MemTableSize: 20, TargetFileSize: 64, L0TableNumCompactionTrigger: 2}, []recovery.CheckpointHandle{h2})
+			e1, err1 := db3.Get(verifSPKeys[0])
+			e2, err2 := db3.Get(verifSPKeys[1])
+			verif.Assert(err1 == nil && bytes.Equal(e1.Value(), val) && err2 == nil && bytes.Equal(e2.Value(), val2), "operator-state-restored-from-the-second-savepoint")
+		}
 	}
 	verif.Reached()
 }
